@@ -38,8 +38,8 @@ ALL_STYLES = ("std", "braced", "ws", "parens", "bare")
 
 def plan(tier, mk):
     """generation jobs: battery types, Scope, MaxMut, MutDepth, MaxFrames (documents in a row on one reused decoder), styles, sigmas"""
-    reuse, pos = mk["reuse"], mk["pos"]
-    base = [k for k in mk["all"] if k not in reuse and k not in pos]
+    reuse, pos, combo = mk["reuse"], mk["pos"], mk["combo"]
+    base = [k for k in mk["all"] if k not in reuse and k not in pos and k not in combo]
     jobs = []
     if tier == "quick":
         for g in range(GROUPS):      # interleaved so that the heavy types are spread over the groups
@@ -52,6 +52,10 @@ def plan(tier, mk):
         for g in range(GROUPS):
             jobs.append(dict(name="pos%d" % g, keys=pos[g::GROUPS], scope=0, max_mut=1, mut_depth=1, frames=1,
                              styles=("std",), sigmas=1))
+        # the attribute combinations of the derive macro (tag x header x body crossed)
+        for g in range(GROUPS):
+            jobs.append(dict(name="combo%d" % g, keys=combo[g::GROUPS], scope=0, max_mut=1, mut_depth=2, frames=2,
+                             styles=("std", "braced"), sigmas=1))
         return jobs
     for g in range(GROUPS):
         jobs.append(dict(name="gen%d" % g, keys=base[g::GROUPS], scope=1, max_mut=1, mut_depth=3, frames=2, styles=ALL_STYLES, sigmas=2))
@@ -59,6 +63,8 @@ def plan(tier, mk):
         jobs.append(dict(name="reuse%d" % g, keys=reuse[g::GROUPS], scope=0, max_mut=1, mut_depth=3, frames=3, styles=ALL_STYLES, sigmas=1))
     for g in range(GROUPS):
         jobs.append(dict(name="pos%d" % g, keys=pos[g::GROUPS], scope=0, max_mut=1, mut_depth=2, frames=2, styles=("std", "braced", "ws"), sigmas=4))
+    for g in range(GROUPS):
+        jobs.append(dict(name="combo%d" % g, keys=combo[g::GROUPS], scope=1, max_mut=1, mut_depth=3, frames=2, styles=ALL_STYLES, sigmas=2))
     # second-order mutants (two operators in a row), except for the types with model-value fields (too many)
     two = [k for k in base if k not in ("WithValue", "BodyValue", "HdrValue", "ModelVal", "VecNest", "Coll")]
     n2 = 2 * GROUPS
@@ -68,6 +74,218 @@ def plan(tier, mk):
 
 
 CHUNK = 150000
+
+# ----------------------------------------------------------------------------- the combination battery (ONE table)
+#
+# The attribute COMBINATIONS the derive macro supports, crossed systematically:
+#   tag      none | a #[form(tag)] field | #[form(tag = "..")] rename
+#   header   none | header slots | header_body | header_body + header slots | implicit (plain fields next to a body field)
+#   body     labelled (named struct) | delegated (#[form(body)] field) | ordinal (tuple struct)
+# fully crossed (the invalid cells are left out: an implicit header needs a delegated body); the number of #[form(attr)]
+# fields (0 / 1 / 2) and the modifier on one plain field (none / #[form(skip)] / #[form(name = "..")]) rotate so that each
+# of their values meets every tag, header and body value.  The same cells are generated once more as enum variants (a
+# variant has no tag field: the derive macro only supports #[form(tag)] fields in structs).  Unit structs and
+# #[form(newtype)] have no fields to combine and stay in the hand-written battery (Unit, NewT, NewS, ConvEnum).
+# From this one table both harness/h_core/src/form_combos.rs (the Rust types) and specs/FormDocCombos.tla (their
+# descriptions for the document model) are generated, so the two cannot drift apart.
+
+COMBO_RS = os.path.join(core.ROOT, "harness", "h_core", "src", "form_combos.rs")
+COMBO_TLA = os.path.join(core.SPECS, "FormDocCombos.tla")
+_PRIM_RS = {"i32c": "i32", "boolc": "bool", "stringc": "String", "level": "Level"}
+
+
+def _ty_rs(t):
+    if t["c"] == "prim":
+        return _PRIM_RS[t["p"]]
+    if t["c"] == "vec":
+        return "Vec<%s>" % _ty_rs(t["e"])
+    if t["c"] == "named":
+        return t["n"]
+    raise core.ToolError(str(t))
+
+
+def _ty_tla(t):
+    if t["c"] == "prim":
+        return '[c |-> "prim", p |-> "%s"]' % t["p"]
+    if t["c"] == "vec":
+        return '[c |-> "vec", e |-> %s]' % _ty_tla(t["e"])
+    return '[c |-> "named", n |-> "%s"]' % t["n"]
+
+
+def _P(p):
+    return {"c": "prim", "p": p}
+
+
+BODY_TYPES = [_P("stringc"), {"c": "named", "n": "Two"}, {"c": "vec", "e": _P("i32c")}]
+
+
+def combo_cell(i, name, tag, hdr, body, nattr, mod, in_enum):
+    """one cell of the cross: the fields of a struct / variant, in declaration order"""
+    tuple_ = body == "tuple"
+    fields = []
+
+    def add(rust, role, ty, label=None, extra=""):
+        # in a tuple struct a field that is written with a label (attribute, header slot) needs an explicit name
+        label = rust if label is None else label
+        fields.append({"rust": str(len(fields)) if tuple_ else rust, "name": label, "role": role, "ty": ty, "attrs": extra,
+                       "needs_name": tuple_ and role in ("attr", "header", "tag")})
+
+    if tag == "field":
+        add("level", "tag", _P("level"))
+    if hdr in ("hbody", "both"):
+        add("hb", "hbody", _P("boolc"))
+    if hdr in ("slots", "both"):
+        add("h1", "header", _P("i32c"))
+    if hdr == "slots":
+        add("h2", "header", _P("stringc"))
+    for a in range(nattr):
+        add("a%d" % (a + 1), "attr", _P("boolc") if a == 0 else _P("stringc"))
+    # plain fields: the slots of a labelled / ordinal body; next to a delegated body they are lifted into the header
+    plain = body in ("labelled", "tuple") or hdr == "implicit"
+    if plain:
+        if mod == "rename" and not tuple_:
+            add("s1", "slot", _P("i32c"), label="renamed_s1")
+        else:
+            add("s1", "slot", _P("i32c"), label="" if tuple_ else None)
+        if mod == "skip":
+            add("sk", "skip", _P("i32c"))
+        if body != "delegated":
+            add("s2", "slot", _P("stringc"), label="" if tuple_ else None)
+    elif mod == "skip":
+        add("sk", "skip", _P("i32c"))
+    if body == "delegated":
+        add("b", "body", BODY_TYPES[(i // 3 + i) % len(BODY_TYPES)], label="" if tuple_ else None)
+    declared = len(fields)
+    shape = ("newtype" if declared == 1 else "tuple") if tuple_ else "named"
+    return {"tag": name.lower() + "-tag" if tag == "rename" else name, "tag_attr": tag == "rename", "shape": shape, "fields": fields}
+
+
+def combo_table():
+    """[(key, descriptor)] - descriptor in the shape of the SCHEMA dump of the model (+ what the Rust generator needs)"""
+    cells = []
+    for ti, tag in enumerate(("none", "field", "rename")):
+        for hi, hdr in enumerate(("none", "slots", "hbody", "both", "implicit")):
+            for bi, body in enumerate(("labelled", "delegated", "tuple")):
+                if hdr == "implicit" and body != "delegated":
+                    continue        # plain fields are only lifted into the header next to a #[form(body)] field
+                cells.append((tag, hdr, body, (ti + hi + bi) % 3, ("none", "skip", "rename")[(ti + 2 * hi + bi) % 3]))
+    out = []
+    for i, (tag, hdr, body, nattr, mod) in enumerate(cells):
+        name = "K%02d" % i
+        c = combo_cell(i, name, tag, hdr, body, nattr, mod, False)
+        out.append((name, {"kind": "struct", "tag": c["tag"], "tag_attr": c["tag_attr"], "shape": c["shape"], "fields": c["fields"],
+                           "cell": [tag, hdr, body, nattr, mod]}))
+    # the same cells as enum variants (no tag field inside a variant), 7 variants per enum
+    vcells = [c for c in cells if c[0] != "field"]
+    for e in range(0, len(vcells), 7):
+        variants = []
+        for j, (tag, hdr, body, nattr, mod) in enumerate(vcells[e:e + 7]):
+            vn = "V%d" % j
+            c = combo_cell(e + j, vn, tag, hdr, body, nattr, mod, True)
+            variants.append({"vname": vn, "tag": c["tag"], "tag_attr": c["tag_attr"], "shape": c["shape"], "fields": c["fields"],
+                             "cell": [tag, hdr, body, nattr, mod]})
+        out.append(("KE%d" % (e // 7), {"kind": "enum", "variants": variants}))
+    return out
+
+
+def _fields_rs(fields, tuple_):
+    parts = []
+    for f in fields:
+        at = []
+        role = f["role"]
+        form = {"tag": ["tag"], "hbody": ["header_body"], "header": ["header"], "attr": ["attr"], "body": ["body"], "skip": ["skip"],
+                "slot": []}[role]
+        if f["needs_name"] or (role == "slot" and not tuple_ and f["name"] not in ("", f["rust"])):
+            form.append('name = "%s"' % f["name"])
+        if form:
+            at.append("#[form(%s)]" % ", ".join(form))
+        if role == "skip":
+            at.append("#[serde(skip)]")
+        decl = _ty_rs(f["ty"]) if tuple_ else "%s: %s" % (f["rust"], _ty_rs(f["ty"]))
+        parts.append(" ".join(at + [decl]))
+    return ", ".join(parts)
+
+
+def combo_rust(table):
+    o = ["// GENERATED by checks/c16.py (combo_table) - do not edit; the same table generates specs/FormDocCombos.tla", ""]
+    names = []
+    for key, d in table:
+        names.append(key)
+        o.append("#[derive(Form, Serialize, Deserialize, Clone, Debug, PartialEq)]")
+        if d["kind"] == "struct":
+            if d["tag_attr"]:
+                o.append('#[form(tag = "%s")]' % d["tag"])
+            tuple_ = d["shape"] != "named"
+            body = _fields_rs(d["fields"], tuple_)
+            o.append("struct %s(%s);" % (key, body) if tuple_ else "struct %s { %s }" % (key, body))
+        else:
+            o.append("enum %s {" % key)
+            for v in d["variants"]:
+                if v["tag_attr"]:
+                    o.append('    #[form(tag = "%s")]' % v["tag"])
+                tuple_ = v["shape"] != "named"
+                body = _fields_rs(v["fields"], tuple_)
+                o.append("    %s(%s)," % (v["vname"], body) if tuple_ else "    %s { %s }," % (v["vname"], body))
+            o.append("}")
+        o.append("")
+    o.append("tj_serde!(%s);" % ", ".join(names))
+    o.append("")
+    o.append("fn dispatch_combo(ty: &str, case: &J) -> Option<J> {")
+    o.append("    Some(match ty {")
+    for n in names:
+        o.append('        "%s" => run::<%s>(case),' % (n, n))
+    o.append("        _ => return None,")
+    o.append("    })")
+    o.append("}")
+    return "\n".join(o) + "\n"
+
+
+def _fields_tla(fields):
+    return "<<" + ", ".join('[rust |-> "%s", name |-> "%s", role |-> "%s", ty |-> %s]' % (f["rust"], f["name"], f["role"], _ty_tla(f["ty"]))
+                            for f in fields) + ">>"
+
+
+def combo_tla(table):
+    o = ["--------------------------- MODULE FormDocCombos ---------------------------",
+         "(* GENERATED by checks/c16.py (combo_table) - do not edit.  The descriptions of the combination battery:     *)",
+         "(* tag x header x body crossed, attribute count and field modifier rotated; the same table generates the     *)",
+         "(* Rust types in harness/h_core/src/form_combos.rs.  Cells: *)"]
+    for key, d in table:
+        if d["kind"] == "struct":
+            o.append("(*   %s  tag=%s header=%s body=%s attrs=%d modifier=%s *)" % ((key,) + tuple(d["cell"])))
+        else:
+            for v in d["variants"]:
+                o.append("(*   %s::%s  tag=%s header=%s body=%s attrs=%d modifier=%s *)" % ((key, v["vname"]) + tuple(v["cell"])))
+    o.append("")
+    o.append("ComboKeys == {%s}" % ", ".join('"%s"' % k for k, _ in table))
+    o.append("")
+    o.append("ComboType(key) ==")
+    first = True
+    for key, d in table:
+        if d["kind"] == "struct":
+            rhs = '[kind |-> "struct", tag |-> "%s", shape |-> "%s", fields |-> %s]' % (d["tag"], d["shape"], _fields_tla(d["fields"]))
+        else:
+            rhs = '[kind |-> "enum", variants |-> <<' + ",\n        ".join(
+                '[vname |-> "%s", tag |-> "%s", shape |-> "%s", fields |-> %s]' % (v["vname"], v["tag"], v["shape"], _fields_tla(v["fields"]))
+                for v in d["variants"]) + ">>]"
+        o.append('  %s key = "%s" -> %s' % ("CASE" if first else "  []", key, rhs))
+        first = False
+    o.append("")
+    o.append("\\* (a constant: evaluated once)")
+    o.append("ComboTypes == [key \\in ComboKeys |-> ComboType(key)]")
+    o.append("=============================================================================")
+    return "\n".join(o) + "\n"
+
+
+def sync_generated():
+    """(re)write the two generated files when the table has changed"""
+    t = combo_table()
+    for path, text in ((COMBO_RS, combo_rust(t)), (COMBO_TLA, combo_tla(t))):
+        if not os.path.exists(path) or open(path).read() != text:
+            with open(path, "w") as fh:
+                fh.write(text)
+    return t
+
 
 # ----------------------------------------------------------------------------- concretisation pools
 
@@ -339,6 +557,7 @@ def model_keys(wd):
             raise errs[0]
         _KEYS["all"] = sorted(json.loads(res["keys"].tagged["SCHEMA"][0]).keys())
         _KEYS["pos"] = [k for k in _KEYS["all"] if "_" in k]
+        _KEYS["combo"] = [k for k in _KEYS["all"] if re.match(r"^KE?\d+$", k)]
         s = open(os.path.join(core.SPECS, "FormDoc.tla")).read()
         _KEYS["reuse"] = re.findall(r'"([^"]+)"', re.search(r"ReuseKeys == \{(.*?)\}", s, re.S).group(1))
     return _KEYS
@@ -766,6 +985,7 @@ def kf_match(f, law, kind, ty, subject, bits):
 
 def run(tier, out):
     wd = core.workdir(PROP)
+    sync_generated()
     core.build_harness(MEMBER, BIN)
     seed = core.seed()
     mk = model_keys(wd)
